@@ -101,3 +101,69 @@ package hermes
 //@   ensures deshort: format == DateDEshort ==> a0 == day && a1 == month && a2 == (year - 1900) % 100
 //@   ensures enshort: format == DateENshort ==> a0 == month && a1 == day && a2 == (year - 1900) % 100
 
+
+// ---------------------------------------------------------------------------
+// C20  groundwater level from a time series
+// validGW: timestamps strictly ascending and positive; the map's domain is exactly the set of timestamps
+// (tsindex is the inverse of the timestamp list, an uninterpreted witness function).
+//@ global define validGW(g) = forall(i, 0, len(g.GWTimestamps), forall(j, i+1, len(g.GWTimestamps), g.GWTimestamps[i] < g.GWTimestamps[j])) &&
+//@   |  forall(i, 0, len(g.GWTimestamps), g.GWTimestamps[i] > 0 && ufint("tsindex", g.GWTimestamps[i]) == i) &&
+//@   |  forallint(d, iff(indom(g.GWTimeSeriesValues, d), 0 <= ufint("tsindex", d) && ufint("tsindex", d) < len(g.GWTimestamps) && g.GWTimestamps[ufint("tsindex", d)] == d))
+
+//@ func GetGroundWaterLevel
+//@   serves C20
+//@   define n() = len(g.GWTimestamps)
+//@   define ts(i) = g.GWTimestamps[i]
+//@   define val(d) = g.GWTimeSeriesValues[d]
+//@   define has(d) = indom(g.GWTimeSeriesValues, d)
+//@   requires series: validGW(g)
+//@   ensures hit: has(date) ==> result0 == val(date) && isnil(result1)
+//@   ensures interp: forall(j, 0, n()-1, ts(j) < date && date < ts(j+1) ==>
+//@   |   result0 == val(ts(j)) + (val(ts(j+1)) - val(ts(j)))/real(ts(j+1)-ts(j))*real(date - ts(j)) && isnil(result1))
+//@   ensures before: n() > 0 && date < ts(0) ==> result0 == val(ts(0)) && isnil(result1)
+//@   ensures after: n() > 0 && date > ts(n()-1) ==> result0 == val(ts(n()-1)) && isnil(result1)
+//@   ensures error: iff(!isnil(result1), n() == 0 && !has(date))
+//@   modifies nothing
+//@ loop GetGroundWaterLevel#1
+//@   invariant range: 0 <= \i && \i <= n()
+//@   invariant none: nextDate == 0 && !has(date)
+//@   invariant below: forall(j, 0, \i, ts(j) < date)
+//@   invariant prev: prevDate == ite(\i == 0, 0, ts(\i-1))
+
+// "hence between the two values": consequence of GetGroundWaterLevel/post:interp, as a lemma over its formula.
+//@ lemma C20-between
+//@   serves C20
+//@   var a real
+//@   var b real
+//@   var p int
+//@   var d int
+//@   var q int
+//@   assume p < d && d < q
+//@   prove lo: min(a, b) <= a + (b - a)/real(q - p)*real(d - p)
+//@   prove hi: a + (b - a)/real(q - p)*real(d - p) <= max(a, b)
+
+// daily update of the level inside the day loop of Run (closure Run$1)
+//@ region HermesSession.Run$1#gw from "oldGrW := g.GRW" to "if g.GROUNDWATERFROM == Polygonfile {"
+//@   serves C20
+//@   define n() = len(g.GWTimestamps)
+//@   define ts(i) = g.GWTimestamps[i]
+//@   define val(d) = g.GWTimeSeriesValues[d]
+//@   define has(d) = indom(g.GWTimeSeriesValues, d)
+//@   safety[C20] nofatal
+//@   requires mean: g.GW == real(g.GRLO+g.GRHI)/2 && g.AMPL == real(g.GRLO-g.GRHI)/2
+//@   requires series: g.GROUNDWATERFROM == GWTimeSeries ==> n() > 0
+//@   requires valid: validGW(g)
+//@   ensures interval: g.GROUNDWATERFROM == Polygonfile ==> min(real(g.GRHI), real(g.GRLO)) <= g.GRW && g.GRW <= max(real(g.GRHI), real(g.GRLO))
+//@   ensures aroundmean: g.GROUNDWATERFROM == Polygonfile ==> abs(g.GRW - real(g.GRLO+g.GRHI)/2) <= abs(real(g.GRLO-g.GRHI)/2)
+//@   ensures phase: g.GROUNDWATERFROM == Polygonfile ==> g.GRW == g.GW - g.AMPL*m_sin((g.TAG.Num+real(g.GWPhase))*math.Pi/180)
+//@   ensures hit: g.GROUNDWATERFROM == GWTimeSeries && has(ZEIT) ==> g.GRW == val(ZEIT)
+//@   ensures before: g.GROUNDWATERFROM == GWTimeSeries && ZEIT < ts(0) ==> g.GRW == val(ts(0))
+//@   ensures after: g.GROUNDWATERFROM == GWTimeSeries && ZEIT > ts(n()-1) ==> g.GRW == val(ts(n()-1))
+//@   ensures interp: g.GROUNDWATERFROM == GWTimeSeries ==> forall(j, 0, n()-1, ts(j) < ZEIT && ZEIT < ts(j+1) ==>
+//@   |   g.GRW == val(ts(j)) + (val(ts(j+1)) - val(ts(j)))/real(ts(j+1)-ts(j))*real(ZEIT - ts(j)))
+//@   ensures frame: unchanged(g.GW, g.AMPL, g.GRLO, g.GRHI, g.GWTimestamps, g.GWTimeSeriesValues)
+
+// mean and amplitude from the two levels of the polygon file (Input)
+//@ region Input#gwpoly from "g.GRHI = int(ValAsInt(tokens[3]" to "g.AMPL = float64(g.GRLO-g.GRHI) / 2"
+//@   serves C20
+//@   ensures mean: g.GW == real(g.GRLO+g.GRHI)/2 && g.AMPL == real(g.GRLO-g.GRHI)/2 && g.GRW == g.GW
